@@ -82,6 +82,7 @@ struct SimOS
 	std::map<std::string, SimFileP> ns ;
 	std::map<int, SimFd> fds ;
 	int next_fd = 1000 ;
+	bool fd_zero = false ;			// plan option: descriptor number 0 is free (stdin closed) and is handed out first
 	// clock
 	int64_t epoch0 = 1700000000 ;
 	int64_t clock_off = 0 ;		// seconds
